@@ -476,6 +476,14 @@ pub fn exec(c: &mut Case, real: &mut BinArchive, model: &mut RefArchive, op: &Op
     }
     // cursor
     if stream {
+        // The cursor after a FAILED stream access is deliberately not asserted: the statement only
+        // fixes the advance of successful accesses, and the unchanged library itself leaves the
+        // cursor advanced after a failed stream read_bytes (it reads byte by byte). Recorded only.
+        if let (Err(_), Some(t)) = (&res, tell_after) {
+            if t != addr {
+                c.outcome("cursor_moved_by_failed_stream_access(not asserted)");
+            }
+        }
         if let (Ok(_), Some(t)) = (&res, tell_after) {
             let expect = addr + width;
             if t != expect {
